@@ -83,3 +83,31 @@ func (t *Torrent) VerifAddPeer(p *peer.Peer) {
 	p.Pieces = &t.Pieces
 	t.peers = append(t.peers, p)
 }
+
+// VerifFileChunk is one element of fileChunks' result.
+type VerifFileChunk struct {
+	Path       []string
+	FileLength int64
+	Offset     int64
+	Length     int64
+	Pad        bool
+}
+
+// VerifFileChunks maps a range of a piece to ranges of files.
+func (t *Torrent) VerifFileChunks(index, offset, length uint32) []VerifFileChunk {
+	var out []VerifFileChunk
+	for _, fc := range fileChunks(t, index, offset, length) {
+		out = append(out, VerifFileChunk{fc.path, fc.filelength, fc.offset, fc.length, fc.pad})
+	}
+	return out
+}
+
+// VerifWebseedGR runs a GetRight fetch synchronously.
+func (t *Torrent) VerifWebseedGR(ctx context.Context, ws *webseed.GetRight, index, offset, length uint32) {
+	webseedGR(ctx, ws, t, index, offset, length)
+}
+
+// VerifWebseedH runs a Hoffman fetch synchronously.
+func (t *Torrent) VerifWebseedH(ctx context.Context, ws *webseed.Hoffman, index, offset, length uint32) {
+	webseedH(ctx, ws, t, index, offset, length)
+}
